@@ -38,6 +38,7 @@ package flate
 //@   modifies nothing
 //@   ensures[C13 fresh-state] typeis(result, *decompressor) && rdFresh(result.(*decompressor))
 //@   ensures[C05 src-direct] typeis(r, *bufio.Reader) ==> result.(*decompressor).rBuf == r.(*bufio.Reader)
+//@   ensures[C05 C13 own-buffer] result.(*decompressor).ownBuf == !typeis(r, *bufio.Reader)
 
 //@ func (*decompressor).Reset
 //@   params r, under, dict -> err
@@ -47,6 +48,8 @@ package flate
 //@   modifies *r, *r.rBuf
 //@   ensures[C03 C13 fresh] rdFresh(r) && err == nil
 //@   ensures[C05 C13 src-direct] typeis(under, *bufio.Reader) ==> r.rBuf == under.(*bufio.Reader)
+//@   ensures[C05 C13 own-buffer] r.ownBuf == !typeis(under, *bufio.Reader)
+//@   assert call Reset 1 [C05 C13 own-buffer] old(r.ownBuf)
 
 //@ pure dhPre(state *inflate, output []byte, written int) bool = state != nil && stBase(state) && state.bitsLen >= 0 && state.phase == phaseHeaderDecoded && 0 <= written && written <= len(output) && len(output) == 65536 && state.input != nil && state.bfinal <= 1 && state.writeOverflowLen == 0 && tabsOK(state)
 
